@@ -54,6 +54,27 @@ def assd(params):
     return {"violated": bool(bad), "problems": bad[:3]}
 
 
+def far(params):
+    """machine-integer replay: single voxels far apart (displacements beyond 46340, where an int32 square wraps)"""
+    from panoptica.metrics import Metric
+    bad = []
+    cases = [((100000,), (5,), (70000,)), ((4, 60000), (1, 3), (2, 59990)), ((2, 2, 50000), (0, 1, 7), (1, 0, 49000)), ((66000, 2), (10, 0), (65990, 1))]
+    for shape, a, b in cases:
+        X = np.zeros(shape, bool)
+        Y = np.zeros(shape, bool)
+        X[a] = True
+        Y[b] = True
+        want = float(np.sqrt(sum((float(i) - float(j)) ** 2 for i, j in zip(a, b))))
+        try:
+            got = float(Metric.ASSD(X, Y))
+        except Exception as e:
+            bad.append(f"shape {shape}: raised {type(e).__name__}: {e}"[:160])
+            continue
+        if not (abs(got - want) <= 1e-6 * want):
+            bad.append(f"shape {shape}: single voxels at {a} and {b}: ASSD={got}, Euclidean distance {want}")
+    return {"violated": bool(bad), "problems": bad[:3]}
+
+
 def bounded(params):
     tier, seed = params.get("tier", "quick"), int(params.get("seed", 0))
     rng = random.Random(seed)
